@@ -138,4 +138,16 @@ theorem inv_reachable {cfg : Cfg} {s : St} (h : Reachable cfg s) : Inv s := by
   | init n => exact inv_init n
   | step t a _ hs ih => exact inv_step cfg _ _ t a ih hs
 
+theorem reachable_run {cfg : Cfg} {s : St} (h : Reachable cfg s) (sched : List (Nat × Act)) {s' : St}
+    (hr : run cfg s sched = some s') : Reachable cfg s' := by
+  induction sched generalizing s with
+  | nil => simp [run] at hr; subst hr; exact h
+  | cons p rest ih =>
+    obtain ⟨t, a⟩ := p
+    simp only [run] at hr
+    split at hr
+    · simp at hr
+    · rename_i s1 hs1
+      exact ih (Reachable.step t a h hs1) hr
+
 end GoZero.C11
